@@ -38,20 +38,33 @@ Definition configured (u : ufun) (b : beh) (st : Z) : Prop :=
   | _ => False
   end.
 
-(* a controller write from inside / after the function: same run, status and object as the record the function saw *)
-Definition expl_ctl (view r : record) : Prop := r_run r = r_run view /\ r_status r = r_status view /\ r_obj r = r_obj view.
+(* the controller's record agrees with the record the function saw *)
+Definition agrees (view ctl : record) : Prop :=
+  r_run ctl = r_run view /\ r_status ctl = r_status view /\ r_obj ctl = r_obj view /\ r_ver ctl = r_ver view.
+(* a controller write from inside / after the function: same run, status and object as the record the function saw, one version on *)
+Definition expl_ctl (view r : record) : Prop :=
+  r_run r = r_run view /\ r_status r = r_status view /\ r_obj r = r_obj view /\ r_ver r = r_ver view + 1.
 (* the updater's write: the failure-free outcome of the configured function on the record it saw *)
 Definition expl_adv (u : ufun) (view : record) (z : Z) (r : record) : Prop :=
-  r_run r = r_run view /\ r_status r = z /\
+  r_run r = r_run view /\ r_status r = z /\ r_ver r = r_ver view + 1 /\
   exists b st mark, configured u b st /\ final_beh b (obj_seed (r_obj view)) = (mark, ARet z) /\
                     r_obj r = (if mark then mark_obj (r_obj view) st else r_obj view).
 
-(* on the (reversed) trace of a handler: every Store sits directly on top of the invocation that explains it *)
+(* a write made from the record [x] a Lookup answered with: same run and status, one version on, the same object — or the
+   data-deletion rewrite (run-state controller through the API, paused-records retry, delete consumer, the inserter's pause) *)
+Definition plain_of (x r : record) : Prop :=
+  r_run r = r_run x /\ r_status r = r_status x /\ r_ver r = r_ver x + 1 /\ (r_obj r = r_obj x \/ r_state r = RSDataDeleted).
+Definition src_of (k : tok) (r : record) : Prop :=
+  match k with TLookup _ _ _ (Some x) => plain_of x r | _ => False end.
+
+(* on the (reversed) trace of an operation: every Store sits directly on top of the invocation that explains it, or is the first
+   write of a new run, or is a plain write from a record looked up earlier in the operation *)
 Inductive adv_ok : list tok -> Prop :=
 | av_nil : adv_ok []
 | av_other t tr : not_store t -> adv_ok tr -> adv_ok (t :: tr)
+| av_src p r a tr : r_ver r = 1 \/ (exists k, In k tr /\ src_of k r) -> adv_ok tr -> adv_ok (TStore p r a :: tr)
 | av_ctl p r a u view pers now pl tr :
-    expl_ctl view r -> adv_ok (TUser u view pers now pl :: tr) -> adv_ok (TStore p r a :: TUser u view pers now pl :: tr)
+    is_step_fn u = true -> expl_ctl view r -> adv_ok (TUser u view pers now pl :: tr) -> adv_ok (TStore p r a :: TUser u view pers now pl :: tr)
 | av_adv p r a k key res lk u view pers now z tr :
     expl_adv u view z r -> adv_ok (TLookup k key res lk :: TUser u view pers now (URet z) :: tr) ->
     adv_ok (TStore p r a :: TLookup k key res lk :: TUser u view pers now (URet z) :: tr).
@@ -73,17 +86,22 @@ Qed.
 
 Lemma stamp_fields3 w r : r_run (stamp c w r) = r_run r /\ r_status (stamp c w r) = r_status r /\ r_obj (stamp c w r) = r_obj r.
 Proof. unfold stamp. destruct (ec_stamp c); auto. Qed.
+Lemma stamp_ver w r : r_ver (stamp c w r) = r_ver r.
+Proof. unfold stamp. destruct (ec_stamp c); reflexivity. Qed.
 
 Lemma dead_false_back s s1 : (o_dead s = true -> o_dead s1 = true) -> o_dead s1 = false -> o_dead s = false.
 Proof. intros H H1. destruct (o_dead s); [rewrite (H eq_refl) in H1; discriminate|reflexivity]. Qed.
 
 (* the controller, called on a record that agrees with the view whose invocation token is on top *)
+Lemma configured_step_fn u b st : configured u b st -> is_step_fn u = true.
+Proof. destruct u; cbn; intros H; try destruct H; reflexivity. Qed.
+
 Lemma ctl_do_adv ctl target reason s u view pl :
-  adv_ok (o_trace s) -> top_user u view pl s -> expl_ctl view ctl ->
+  is_step_fn u = true -> adv_ok (o_trace s) -> top_user u view pl s -> agrees view ctl ->
   adv_ok (o_trace (snd (ctl_do c ctl target reason s))).
 Proof.
-  intros Hs Htop (E1 & E2 & E3). unfold ctl_do. destruct (ctl_update ctl target reason) as [r'|] eqn:Eu; [|exact Hs].
-  assert (F : r_run r' = r_run ctl /\ r_status r' = r_status ctl /\ r_obj r' = r_obj ctl).
+  intros Hu Hs Htop (E1 & E2 & E3 & E4). unfold ctl_do. destruct (ctl_update ctl target reason) as [r'|] eqn:Eu; [|exact Hs].
+  assert (F : r_run r' = r_run ctl /\ r_status r' = r_status ctl /\ r_obj r' = r_obj ctl /\ r_ver r' = r_ver ctl + 1).
   { unfold ctl_update in Eu. destruct (rs_table _ _); [|discriminate]. inversion Eu. cbn. auto. }
   unfold bind, catch, p_store.
   match goal with |- context [prim ?k ?ctx ?T ?E ?X s] => destruct (prim_ret_spec' k ctx T E s) as (d & s1 & R & Tr & D1) end.
@@ -91,8 +109,8 @@ Proof.
   assert (H1 : adv_ok (o_trace s1)).
   { rewrite Tr. destruct (o_dead s1) eqn:Ed; [exact Hs|].
     assert (Hd0 : o_dead s = false) by (destruct (o_dead s); [discriminate (D1 eq_refl)|reflexivity]).
-    destruct (Htop Hd0) as (pers & now & tr & Et). rewrite Et. apply av_ctl; [|rewrite <- Et; exact Hs].
-    destruct (stamp_fields3 (o_w s) r') as (S1 & S2 & S3). destruct F as (F1 & F2 & F3). unfold expl_ctl. rewrite S1, S2, S3. repeat split; congruence. }
+    destruct (Htop Hd0) as (pers & now & tr & Et). rewrite Et. apply av_ctl; [exact Hu| |rewrite <- Et; exact Hs].
+    destruct (stamp_fields3 (o_w s) r') as (S1 & S2 & S3). destruct F as (F1 & F2 & F3 & F4). unfold expl_ctl. rewrite S1, S2, S3, stamp_ver. repeat split; congruence. }
   destruct d; exact H1.
 Qed.
 
@@ -141,14 +159,14 @@ Proof.
   - unfold ret in H. inversion H; subst. split; [exact H2|]. intros obj' oc ctl Hr. inversion Hr; subst. cbn beta iota.
     left. split; [reflexivity|eauto].
   - unfold bind at 1 in H.
-    pose proof (ctl_do_adv view RSPaused 1 s2 u view UPauseA H2 T2 (conj eq_refl (conj eq_refl eq_refl))) as H3.
+    pose proof (ctl_do_adv view RSPaused 1 s2 u view UPauseA (configured_step_fn _ _ _ Hc) H2 T2 (conj eq_refl (conj eq_refl (conj eq_refl eq_refl)))) as H3.
     destruct (ctl_do c view RSPaused 1 s2) as [[x|e] s3] eqn:E3; cbn [fst snd] in *; [|inversion H; subst; split; [exact H3|intros; discriminate]].
     unfold ret in H. inversion H; subst. split; [exact H3|]. intros obj' oc ctl Hr. inversion Hr; subst.
     destruct (ctl_do_shape _ _ _ _ _ _ E3 (or_introl eq_refl)) as [(Ex & -> & (e & Ee))|Hd].
     + rewrite Ee. left. rewrite Ex. split; [reflexivity|eauto].
     + destruct (fst x); [intros Hsk; discriminate|right; exact Hd].
   - unfold bind at 1 in H.
-    pose proof (ctl_do_adv view RSCancelled 3 s2 u view UCancelA H2 T2 (conj eq_refl (conj eq_refl eq_refl))) as H3.
+    pose proof (ctl_do_adv view RSCancelled 3 s2 u view UCancelA (configured_step_fn _ _ _ Hc) H2 T2 (conj eq_refl (conj eq_refl (conj eq_refl eq_refl)))) as H3.
     destruct (ctl_do c view RSCancelled 3 s2) as [[x|e] s3] eqn:E3; cbn [fst snd] in *; [|inversion H; subst; split; [exact H3|intros; discriminate]].
     unfold ret in H. inversion H; subst. split; [exact H3|]. intros obj' oc ctl Hr. inversion Hr; subst.
     destruct (ctl_do_shape _ _ _ _ _ _ E3 (or_intror eq_refl)) as [(Ex & -> & (e & Ee))|Hd].
@@ -157,17 +175,17 @@ Proof.
 Qed.
 
 Lemma maybe_pause_adv inst n e u0 ctl s u view :
-  adv_ok (o_trace s) -> ((ctl = view /\ exists pl, top_user u view pl s) \/ ctl_dead ctl) ->
+  is_step_fn u = true -> adv_ok (o_trace s) -> ((ctl = view /\ exists pl, top_user u view pl s) \/ ctl_dead ctl) ->
   adv_ok (o_trace (snd (maybe_pause c inst n e u0 ctl s))).
 Proof.
-  intros Hs Hc. unfold maybe_pause. destruct (n =? 0); [exact Hs|].
+  intros Hu Hs Hc. unfold maybe_pause. destruct (n =? 0); [exact Hs|].
   unfold bind at 1. unfold ctr_add at 1. destruct (c_add (ctr_of (w_ctrs (o_w s)) inst) (Z.to_N e, eunit_code u0, r_run ctl)) as [c' cnt]. cbn [fst snd].
   destruct (Z.of_nat cnt <? n); [exact Hs|].
   unfold bind at 1.
   match goal with |- context [ctl_do c ctl RSPaused 2 ?sx] => set (s1 := sx) end.
   assert (H1 : adv_ok (o_trace (snd (ctl_do c ctl RSPaused 2 s1)))).
   { destruct Hc as [(-> & pl & Ht)|Hd].
-    - apply (ctl_do_adv view RSPaused 2 s1 u view pl); [exact Hs|exact Ht|repeat split].
+    - apply (ctl_do_adv view RSPaused 2 s1 u view pl); [exact Hu|exact Hs|exact Ht|repeat split].
     - unfold ctl_do. rewrite (ctl_dead_no_pause ctl 2 Hd). exact Hs. }
   destruct (ctl_do c ctl RSPaused 2 s1) as [[x|er] s2]; cbn [snd] in *; [|exact H1].
   destruct (fst x); [|exact H1]. exact H1.
@@ -197,7 +215,7 @@ Proof.
   apply av_adv; [|rewrite <- Et, <- Tr; exact H1].
   destruct Hex as (b & st & mark & Hc & Hf & Ho).
   match goal with |- expl_adv _ _ _ (stamp c ?w ?r) => destruct (stamp_fields3 w r) as (S1 & S2 & S3) end.
-  unfold expl_adv. rewrite S1, S2, S3. cbn. split; [reflexivity|]. split; [reflexivity|]. exists b, st, mark. auto.
+  unfold expl_adv. rewrite S1, S2, S3, stamp_ver. cbn. split; [reflexivity|]. split; [reflexivity|]. split; [reflexivity|]. exists b, st, mark. auto.
 Qed.
 
 Lemma find_first_in {A} (p : A -> bool) l x : find_first p l = Some x -> In x l /\ p x = true.
@@ -230,7 +248,7 @@ Proof.
   specialize (Hpost obj' oc ctl eq_refl). destruct oc as [z|oe].
   - destruct (skip_status z) eqn:Esk; [exact H2|]. destruct (Hpost eq_refl) as [Htop (mark & Hfb & Ho)].
     apply (updater_adv st z (promote r) obj' s2 (UFStep st) H2 Htop). exists (sc_beh sc), st, mark. auto.
-  - unfold bind at 1. pose proof (maybe_pause_adv inst n oe u ctl s2 (UFStep st) (promote r) H2 Hpost) as H3.
+  - unfold bind at 1. pose proof (maybe_pause_adv inst n oe u ctl s2 (UFStep st) (promote r) eq_refl H2 Hpost) as H3.
     destruct (maybe_pause c inst n oe u ctl s2) as [[[]|er] s3]; exact H3.
 Qed.
 
@@ -271,7 +289,7 @@ Proof.
                     (ex_intro _ (to_beh tc) (ex_intro _ st (ex_intro _ mark (conj Hc (conj Hfb Ho)))))) as H3.
       destruct (updater c (t_status t) z (set_obj (promote r) obj') s2) as [[[]|er] s3]; cbn [snd] in *; [|exact H3].
       unfold p_tcomplete. eapply adv_ok_em; [|exact H3]. apply em_tend_ns. intros; exact I.
-    - unfold bind at 1. pose proof (maybe_pause_adv inst n oe u ctl s2 (UFTimeout st j) (promote r) H2 Hpost) as H3.
+    - unfold bind at 1. pose proof (maybe_pause_adv inst n oe u ctl s2 (UFTimeout st j) (promote r) eq_refl H2 Hpost) as H3.
       destruct (maybe_pause c inst n oe u ctl s2) as [[[]|er] s3]; exact H3. }
   match goal with |- context [match ?m s2 with _ => _ end] => destruct (m s2) as [[[]|er] sm] end; cbn [snd] in *; [|exact Hmid].
   apply IH; assumption.
